@@ -30,3 +30,78 @@ package dht
 // krpc.RandomNodeID reads crypto/rand: any 20 bytes
 //@ func dht/krpc.RandomNodeID
 //@   trusted
+
+// ---- C17: BEP 42 node-ID security ----
+//
+// The specification is written from BEP 42, not from the code: the CRC32-C of the address masked with
+// 03 0f 3f ff (IPv4, including IPv4-mapped 16-byte addresses) or 01 03 07 0f 1f 3f 7f ff (first 8 bytes of an
+// IPv6 address), with r = the low three bits of the ID's last byte or-ed into the top three bits of the first
+// byte; an ID verifies when its first 21 bits equal the first 21 bits of that CRC.
+
+//@ spec def castagnoli() *crc32.Table = crctab(0x82f63b78)
+//@ spec def bep42crc4(a uint8, b uint8, c uint8, d uint8, r uint8) uint32 = crc4(castagnoli(), (a & 3) | ((r & 7) << 5), b & 15, c & 63, d)
+//@ spec def bep42crc8(a uint8, b uint8, c uint8, d uint8, e uint8, f uint8, g uint8, h uint8, r uint8) uint32 = crc8(castagnoli(), (a & 1) | ((r & 7) << 5), b & 3, c & 7, d & 15, e & 31, f & 63, g & 127, h)
+//@ spec def bep42crc(ip []byte, r uint8) uint32 = isv4(ip) ? bep42crc4(v4b0(ip), v4b1(ip), v4b2(ip), v4b3(ip), r) : bep42crc8(ip[0], ip[1], ip[2], ip[3], ip[4], ip[5], ip[6], ip[7], r)
+//@ spec def first21(b0 uint8, b1 uint8, b2 uint8, crc uint32) bool = b0 == uint8(crc >> 24) && b1 == uint8(crc >> 16) && (b2 & 0xf8) == (uint8(crc >> 8) & 0xf8)
+//@ spec def exempt(ip []byte) bool = (isv4(ip) && (v4b0(ip) == 10 || (v4b0(ip) == 172 && (v4b1(ip) & 240) == 16) || (v4b0(ip) == 192 && v4b1(ip) == 168) || (v4b0(ip) == 169 && v4b1(ip) == 254) || v4b0(ip) == 127)) || (len(ip) == 16 && !mapped4(ip) && ((ip[0] == 254 && (ip[1] & 192) == 128) || (ip[0] == 0 && ip[1] == 0 && ip[2] == 0 && ip[3] == 0 && ip[4] == 0 && ip[5] == 0 && ip[6] == 0 && ip[7] == 0 && ip[8] == 0 && ip[9] == 0 && ip[10] == 0 && ip[11] == 0 && ip[12] == 0 && ip[13] == 0 && ip[14] == 0 && ip[15] == 1)))
+//@ spec def nets() bool = isnet(classA, "10.0.0.0/8") && isnet(classB, "172.16.0.0/12") && isnet(classC, "192.168.0.0/16")
+
+//@ func dht.maskForIP
+//@   ensures v4: isv4(ip) ==> len(result) == 4 && result[0] == 3 && result[1] == 15 && result[2] == 63 && result[3] == 255
+//@   ensures v6: !isv4(ip) ==> len(result) == 8 && result[0] == 1 && result[1] == 3 && result[2] == 7 && result[3] == 15 && result[4] == 31 && result[5] == 63 && result[6] == 127 && result[7] == 255
+//@   ensures fresh: fresh(&result[0])
+
+//@ func dht.crcIP
+//@   requires ip-length: len(ip) == 4 || len(ip) == 16
+//@   ensures bep42: result == old(bep42crc(ip, rand))
+//@   callsite dht.maskForIP copy-v4: len(ip) == 4 ==> len($ip) == 4 && $ip[0] == ip[0] && $ip[1] == ip[1] && $ip[2] == ip[2] && $ip[3] == ip[3]
+//@   callsite dht.maskForIP copy-mapped: mapped4(ip) ==> len($ip) == 4 && $ip[0] == ip[12] && $ip[1] == ip[13] && $ip[2] == ip[14] && $ip[3] == ip[15]
+//@   callsite dht.maskForIP copy-v6: len(ip) == 16 && !mapped4(ip) ==> len($ip) == 16 && (forall k int :: 0 <= k && k < 16 ==> $ip[k] == ip[k])
+//@   loop 1
+//@     unroll 9
+
+//@ func dht.SecureNodeId
+//@   requires nonnil: id != nil
+//@   requires ip-length: len(ip) == 4 || len(ip) == 16
+//@   modifies *id
+//@   ensures tail-unchanged: forall k int :: 3 <= k && k < 20 ==> id[k] == old(id[k])
+//@   ensures low-bits-unchanged: (id[2] & 7) == (old(id[2]) & 7)
+//@   ensures first-21-bits: first21(id[0], id[1], id[2], old(bep42crc(ip, id[19])))
+
+//@ func dht.mustParseCIDRIPNet
+//@   requires valid: validcidr(s)
+//@   ensures parsed: result != nil && isnet(result, s)
+//@ func dht.init#1
+//@   modifies classA, classB, classC
+//@   ensures networks: nets()
+
+//@ func dht.isLocalNetwork
+//@   requires networks: nets()
+//@   requires ip-length: len(ip) == 4 || len(ip) == 16
+//@   ensures exempt: result == exempt(ip)
+
+//@ func dht.NodeIdSecure
+//@   requires networks: nets()
+//@   requires ip-length: len(ip) == 4 || len(ip) == 16
+//@   ensures exempt: exempt(ip) ==> result
+//@   ensures bep42-v4: !exempt(ip) && isv4(ip) ==> result == first21(id[0], id[1], id[2], bep42crc4(v4b0(ip), v4b1(ip), v4b2(ip), v4b3(ip), id[19]))
+//@   ensures bep42-v6: !exempt(ip) && !isv4(ip) ==> result == first21(id[0], id[1], id[2], bep42crc8(ip[0], ip[1], ip[2], ip[3], ip[4], ip[5], ip[6], ip[7], id[19]))
+
+// first21 compares exactly the 21 most significant bits
+//@ lemma first21-is-21-bits: forall b0, b1, b2 uint8 :: forall crc uint32 :: first21(b0, b1, b2, crc) == ((((uint32(b0) << 16) | (uint32(b1) << 8) | uint32(b2)) >> 3) == (crc >> 11))
+// securing is idempotent: the three rewritten bytes are determined by the CRC and the untouched low bits
+//@ lemma secure-idempotent: forall a0, a1, a2, b0, b1, b2 uint8 :: forall crc uint32 :: first21(a0, a1, a2, crc) && first21(b0, b1, b2, crc) && (a2 & 7) == (b2 & 7) ==> a0 == b0 && a1 == b1 && a2 == b2
+
+// any 20 bytes (SHA-1 chain over the arguments); touches nothing but its own result
+//@ func dht.HashTuple
+//@   trusted
+//@ func dht.RandomNodeID
+//@   trusted
+
+//@ func (*dht.ServerConfig).InitNodeId
+//@   requires nonnil: c != nil
+//@   requires ip-length: c.PublicIP != nil ==> len(c.PublicIP) == 4 || len(c.PublicIP) == 16
+//@   requires ip-not-inside-config: !sameobj(c.PublicIP, c)
+//@   modifies c.NodeId
+//@   ensures kept-if-set: old(c.NodeId) != 0 ==> c.NodeId == old(c.NodeId)
+//@   ensures generated-id-verifies: old(c.NodeId) == 0 && c.PublicIP != nil && (c.Conn != nil || !c.NoSecurity) ==> first21(c.NodeId[0], c.NodeId[1], c.NodeId[2], bep42crc(c.PublicIP, c.NodeId[19]))
